@@ -83,7 +83,7 @@ func verifWitnessData(decodeErr, flattenErr bool) string {
 		}
 		return "#%RAML 1.0\ntitle: not json"
 	case flattenErr:
-		return `{"@context": 42, "@id": "x"}`
+		return verifFlattenWitness("v")
 	}
 	return `{"@id": "http://x/a", "@type": "http://a.ml/vocabularies/apiContract#EndPoint"}`
 }
@@ -182,7 +182,7 @@ func verifDocFor(scope string, good string) (string, bool) {
 		// not JSON, and long enough for the decoder to stop before having read all of it
 		return "<html><body>" + strings.Repeat("502 Bad Gateway ", 200) + "</body></html>", true
 	case v.ReplayBool("flag:" + scope + ".flatten.err"):
-		return `{"@context": 42, "@id": "x"}`, true
+		return verifFlattenWitness(scope), true
 	}
 	return good, true
 }
@@ -247,4 +247,14 @@ func VerifC09IndexFrameNative() {
 	Index(withSI)
 	after := Index(plain()).(types.ObjectMap)["@lexical"].(types.ObjectMap)["n1"].(types.ObjectMap)["uri"]
 	v.Assert("C09.frame-globals", fresh == after && after == "")
+}
+
+// verifFlattenWitness is a document the JSON-LD processor rejects with the kind of error
+// the stub chose: a *ld.JsonLdError (invalid local context) or a plain error (a scalar as
+// the content of a named graph).
+func verifFlattenWitness(scope string) string {
+	if v.ReplayBool("flag:" + scope + ".flatten.plain") {
+		return `{"@id": "http://example.com/g", "@graph": "http://example.com/x"}`
+	}
+	return `{"@context": 42, "@id": "x"}`
 }
